@@ -472,6 +472,32 @@ func getArgsToFilesMap(fileArgs map[string]map[Nodable]struct{},
 func addFilesToArgsMappings(fpath string, debug bool, fqname string,
 	filesToArgs map[string]*vdrFileCache,
 	argToFiles map[string]map[string]struct{}) {
+	// A symbolic link to a directory is one entry.  Walking through it would
+	// list what it points to - possibly outside of the pipestance - as files
+	// of this stage, and removing those would remove them at the target.
+	if info, err := os.Lstat(fpath); err == nil && info.Mode()&os.ModeSymlink != 0 {
+		if target, err := os.Stat(fpath); err == nil && target.IsDir() {
+			if _, ok := filesToArgs[fpath]; ok {
+				return
+			}
+			entry := &vdrFileCache{
+				size:  info.Size(),
+				count: 1,
+			}
+			filesToArgs[fpath] = entry
+			names := getLogicalFileNames(fpath)
+			for arg, files := range argToFiles {
+				if file, _ := anyOverlap(names, files); file != "" {
+					if entry.args == nil {
+						entry.args = map[string]struct{}{arg: {}}
+					} else {
+						entry.args[arg] = struct{}{}
+					}
+				}
+			}
+			return
+		}
+	}
 	if err := util.Walk(fpath, func(fpath string, info os.FileInfo, err error) error {
 		// We can't just short-circuit directories here, because
 		// for example an argument might refer to files/foo which
